@@ -148,7 +148,9 @@ func (e *Engine) inGoatCode(s *State, gi int) (bool, string) {
 		return false, ""
 	}
 	fr := g.frames[len(g.frames)-1]
-	if fr.fi.isHarness || !strings.HasPrefix(fr.fi.pkgPath, "github.com/avos-io/goat") || strings.Contains(fr.fi.pkgPath, "/gen/") {
+	// harness code is not checked for races, except self-test bodies (zzAsGoat*), which stand in
+	// for goat code to validate the synchronisation models
+	if (fr.fi.isHarness && !strings.Contains(fr.fi.name, "zzAsGoat")) || !strings.HasPrefix(fr.fi.pkgPath, "github.com/avos-io/goat") || strings.Contains(fr.fi.pkgPath, "/gen/") {
 		return false, ""
 	}
 	return true, shortFn(fr.fi.name)
